@@ -772,8 +772,10 @@ def tree_round_trip_rule(chk, src):
             class Tree(Sym):
                 def __len__(self):
                     return n
-            me = Tree("ttns", node_list=nodes, coeff="the-coeff", time="the-time")
-            itd = SymInterp(src, None, {"np": OpenSym("np", savez=lambda fname, **kw: saved.update(kw)), "logger": Blob("logger"),
+            me = Tree("ttns", _cls=cname, node_list=nodes, coeff="the-coeff", time="the-time")
+            from .chain_rules import class_resolver
+            tree_resolver = class_resolver(src, {"TTNBase": TREE, "TTNS": TREE})
+            itd = SymInterp(src, tree_resolver, {"np": OpenSym("np", savez=lambda fname, **kw: saved.update(kw)), "logger": Blob("logger"),
                                         "super": lambda: Sym("super", dump=lambda fname, other_attrs=None: itd.call_function(base_d, [me, fname, other_attrs]))})
             itd.builtins["len"] = lambda x: n if x is me else len(x)
             from ..syminterp import SymRaise
@@ -799,9 +801,9 @@ def tree_round_trip_rule(chk, src):
             inst = []
 
             def ctor(basis, root=None):
-                inst.append(Sym("instance", root=root))
+                inst.append(Sym("instance", _cls=cname, root=root))
                 return inst[-1]
-            itl = SymInterp(src, None, {"np": OpenSym("np", load=lambda *a, **k: Archive("npload")), "TreeNodeTensor": lambda t, q=None: made.append((t, q)) or ("node", len(made) - 1),
+            itl = SymInterp(src, tree_resolver, {"np": OpenSym("np", load=lambda *a, **k: Archive("npload")), "TreeNodeTensor": lambda t, q=None: made.append((t, q)) or ("node", len(made) - 1),
                                         "copy_connection": lambda a, b: conn.append((a, list(b))),
                                         "super": lambda: Sym("super", load=lambda basis, fname, other_attrs=None: itl.call_function(base_l, [ctor, basis, fname, other_attrs]))})
             basis = Sym("basis", node_list=["bn"] * n)
@@ -848,10 +850,13 @@ def chain_round_trip_rule(chk, src):
         @property
         def imag(self):
             return Val(self._name + ".imag")
-    for cname, rel in (("MatrixProduct", MP), ("Mps", MPS)):
-        fl = src.func(rel, f"{cname}.load")
+    MPDM_, MPO_ = "renormalizer/mps/mpdm.py", "renormalizer/mps/mpo.py"
+    for cname, rel in (("MatrixProduct", MP), ("Mps", MPS), ("MpDm", MPDM_), ("Mpo", MPO_)):
+        # the reader / writer the class inherits
+        owner = {c.name: c for c in src.mro(src.cls(rel, cname))}
+        fl = next(c.methods["load"] for c in src.mro(src.cls(rel, cname)) if "load" in c.methods)
         base_d = src.func(MP, "MatrixProduct.dump")
-        fd = src.find_func(rel, f"{cname}.dump") or base_d
+        fd = next(c.methods["dump"] for c in src.mro(src.cls(rel, cname)) if "dump" in c.methods)
         for n in (2, 11):
             sites = [Sym(f"site{i}", array=Val(f"array-of-site{i}")) for i in range(n)]
             qn = [Val(f"qn-of-bond{i}") for i in range(n + 1)]
@@ -863,7 +868,7 @@ def chain_round_trip_rule(chk, src):
             me = Chain("mp", site_num=n, qn=qn, qnidx=Val("qnidx"), qntot=Val("qntot"), to_right=Val("to_right"), coeff=Val("coeff"))
             me._cls = cname
             from .chain_rules import class_resolver
-            resolve = class_resolver(src, {"MatrixProduct": MP, "Mps": MPS} if cname in ("MatrixProduct", "Mps") else {cname: rel, "MatrixProduct": MP})
+            resolve = class_resolver(src, {"MatrixProduct": MP, "Mps": MPS, "MpDm": MPDM_, "Mpo": MPO_})
 
             class ObjArr(Sym):
                 def __init__(self):
@@ -897,12 +902,15 @@ def chain_round_trip_rule(chk, src):
                 def append(self, mt):
                     got["sites"].append(repr(mt))
 
-            def cls_():
-                got["obj"] = New("loaded")
-                got["obj"]._cls = cname
-                return got["obj"]
+            def maker(klass):
+                def make():
+                    got["obj"] = New("loaded")
+                    got["obj"]._cls = klass
+                    return got["obj"]
+                return make
+            cls_ = maker(cname)
             itl = SymInterp(src, resolve, {"np": OpenSym("np", load=lambda *a, **k: Archive("npload"), iscomplexobj=lambda x: False), "backend": Blob("backend"), "logger": Blob("logger"),
-                                        "int": lambda x: x, "bool": lambda x: x})
+                                        "int": lambda x: x, "bool": lambda x: x, **{k_: maker(k_) for k_ in ("MatrixProduct", "Mps", "MpDm", "Mpo")}})
             out = None
             if fail is None:
                 try:
@@ -917,12 +925,14 @@ def chain_round_trip_rule(chk, src):
             oq = oq.items if isinstance(oq, ObjArr) else oq
             if [repr(x) for x in (oq or [])] != [f"qn-of-bond{i}" for i in range(n + 1)]:
                 probs.append(f"bond labels restored as {[repr(x) for x in (oq or [])][:4]}...")
-            for attr in ("qnidx", "qntot", "to_right") + (("coeff",) if cname == "Mps" else ()):
+            if getattr(o, "_cls", None) != cname:
+                probs.append(f"{cname}.load returns an object of class {getattr(o, '_cls', None)}")
+            for attr in ("qnidx", "qntot", "to_right") + (("coeff",) if fl.cls is not None and fl.cls.name == "Mps" else ()):
                 if repr(getattr(o, attr, None)) != attr:
                     probs.append(f"{attr} restored as {getattr(o, attr, None)!r}")
             if getattr(o, "model", None) != "model" or out is not o:
                 probs.append("model / returned object")
-            chk.ob("chain-round-trip", f"{cname}.dump -> {cname}.load [{n} sites]", not probs, fl.where, probs[:3] or "sites, labels, centre, direction, charge" + (", prefactor" if cname == "Mps" else ""),
+            chk.ob("chain-round-trip", f"{cname}.dump -> {cname}.load [{n} sites]", not probs, fl.where, probs[:3] or "class, sites, labels, centre, direction, charge" + (", prefactor" if fl.cls is not None and fl.cls.name == "Mps" else ""),
                    "every quantity restored from what was written for it, sites and bonds in order", line=fl.node.lineno,
                    detail=f"{cname}: " + (probs[0] if probs else "") + " - a dumped state must reload identically")
 
@@ -947,7 +957,7 @@ def run(chk):
     lossless_restore_rule(chk, src)
     chk.rule("tree-round-trip", "abstract run of the tree writer followed by the tree reader (3 and 12 nodes; with and without a user attribute list)", 6)
     tree_round_trip_rule(chk, src)
-    chk.rule("chain-round-trip", "abstract run of the chain writer followed by the chain reader (2 and 11 sites; MatrixProduct and Mps)", 4)
+    chk.rule("chain-round-trip", "abstract run of the chain writer followed by the chain reader each class inherits (2 and 11 sites; MatrixProduct, Mps, MpDm, Mpo): an object of the same class comes back", 8)
     chain_round_trip_rule(chk, src)
     chk.rule("spill-protocol", "disk spill of large site tensors (abstract run on two objects over a model file system): one file per (object, site), round trip of content, dtype and labels, replacement, cleanup of own files only, nothing written below the limit", 5)
     spill_rule(chk, src)
